@@ -15,6 +15,13 @@ BUILT: dict[str, dict[str, str]] = {
         note="Trusts Python's decimal/fractions/json and numpy; ordinary magnitudes only (see evidence assumptions).",
         ref="DESIGN.md 3/C11",
     ),
+    "C15": dict(
+        technique="property-based testing (Hypothesis): generated lattice/float/-inf point sets against exact oracles (inclusion-exclusion volume in Fractions, O(n^2) Pareto peeling, exhaustive best subset)",
+        category="exploration",
+        text="Generated-input search over adversarial point sets (duplicates, ties, dominated points, -inf, points touching the reference point) in 1-5 dimensions; every answer compared with an independent exact oracle (equality on the lattice). Absence of counterexamples in the explored region only.",
+        note="Trusts fractions.Fraction and the two oracle implementations (cross-checked against each other on small cases); finite reference points only.",
+        ref="DESIGN.md 3/C15",
+    ),
 }
 
 NOT_YET: dict[str, str] = {}
